@@ -39,6 +39,18 @@ def run(ck):
             junk.append(T.mk_case("h", r.choice(T.chunkings(r, s, 1)), exact=r.random() < 0.5, state=st, foreign=r.random() < 0.5,
                                   last=r.choice(["", "a", "script"]), resp=r.choice(T.RESPS)))
         junk.append(T.mk_case("x", r.choice(T.chunkings(r, s, 1)), exact=r.random() < 0.5, state=r.choice(["Data", "Cdata", "Comment", "Pi", "TagState"])))
+    # end of input inside every part of a tag / comment / doctype / reference, with every scripted sink answer: what the
+    # sink answers to a token that only the end of the input completes must not keep the EOF token from being delivered
+    TAILS = ["<%s", "<%s ", "<%s a", "<%s a=", "<%s a=\"x", "<%s a='x", "<%s a=x", "<%s a=\"x\"", "<%s/", "</%s", "</%s ", "</%s\r",
+             "</%s a", "</%s/", "<%s></%s", "<!--%s", "<!--%s-", "<!--%s--", "<!DOCTYPE %s", "<?%s", "<?%s x", "<![CDATA[%s", "&%s", "&#%s"]
+    for fl_, resps in (("h", T.RESPS), ("x", ["", "script=S"])):
+        for name in ["script", "title", "a", "plaintext", "meta", "p"]:
+            for t in TAILS:
+                tail = t.replace("%s", name)
+                for pre in ["", "<r>", "<script>x"]:
+                    for resp in resps:
+                        junk.append(T.mk_case(fl_, [pre + tail], exact=r.random() < 0.5, resp=resp,
+                                              inject=r.choice(["", "<c/>"]) if "=S" in resp else ""))
     e2, f2 = K.totality_oracle(ck, bindir, junk, "tokenizer on junk")
     # whole parsers: every fragment context, deep nesting, long inputs
     tcases = []
